@@ -961,6 +961,8 @@ pub fn run(ctx: &Ctx, st: &mut Stats) {
         })
     });
     super::c03_shell::run(ctx, st);
+    // coverage-guided tier over the same oracles
+    crate::fuzzing::tier_stage(ctx, st, &[("c03_text", 600_000), ("c03_tree", 300_000)]);
 }
 
 pub fn replay(driver: &str, case: &serde_json::Value) -> Result<(Outcome, Option<&'static str>), String> {
